@@ -2,6 +2,8 @@
 // Drives the REAL BlockWriter against the contract of units/blockwriter/unit.vrs with a recording ObjectWriter:
 //   mode 0  CENC null: any order of `write(sbn, ..)` calls, writer failing at a chosen call, optional injected start SBN
 //   mode 1  compressed path with a decompressor that stops consuming input: decode_write_pkt must return (no spin)
+//   mode 2  real compressed path (zlib / deflate / gzip, compressed by the sender's own compress_buffer): blocks in order;
+//           the bytes handed to the writer are the plain object, the object completes, the digest is that of the plain bytes
 use super::*;
 use crate::common::{alc, oti};
 use std::cell::RefCell;
@@ -140,7 +142,11 @@ fn report(func: &str, obl: &str, input: &Input, observed: String, expected: Stri
 
 /// returns true when the real code violates the contract on this input
 fn check(inp: &Input) -> bool {
-    let r = std::panic::catch_unwind(|| if inp.mode == 1 { check_stall(inp) } else { check_null(inp) });
+    let r = std::panic::catch_unwind(|| match inp.mode {
+        1 => check_stall(inp),
+        2 => check_cenc(inp),
+        _ => check_null(inp),
+    });
     match r {
         Ok(bad) => bad,
         Err(e) => {
@@ -311,6 +317,65 @@ fn check_null(inp: &Input) -> bool {
     false
 }
 
+/// mode 2: tl = plain length, blen = block length of the transfer-encoded bytes, skew = content encoding (1 zlib, 2 deflate, 3 gzip),
+/// md5 = digest enabled, nblk = 1: the FDT announced the Content-Length, 0: it did not
+fn check_cenc(inp: &Input) -> bool {
+    let now = SystemTime::now();
+    let rec = Rec {
+        calls: RefCell::new(Vec::new()),
+        fail_at: usize::MAX,
+    };
+    let cenc = match inp.skew % 3 {
+        0 => lct::Cenc::Zlib,
+        1 => lct::Cenc::Deflate,
+        _ => lct::Cenc::Gzip,
+    };
+    let plain: Vec<u8> = (0..inp.tl).map(|j| ((j * j * 7 + j / 3 + inp.tl) & 0xff) as u8).collect();
+    let enc = crate::sender::compress::compress_buffer(&plain, cenc).unwrap();
+    let md5_on = inp.md5 != 0;
+    let content_length = if inp.nblk != 0 { Some(plain.len()) } else { None };
+    let mut bw = BlockWriter::new(enc.len(), content_length, cenc, md5_on);
+    let blen = std::cmp::max(inp.blen as usize, 1);
+    let mut sbn = 0u32;
+    let mut last = Ok(false);
+    for chunk in enc.chunks(blen) {
+        let block = completed_block(chunk, sbn);
+        last = bw.write(sbn, &block, &rec, now);
+        if !matches!(last, Ok(true)) {
+            break;
+        }
+        sbn += 1;
+    }
+    let written: Vec<u8> = rec.calls.borrow().iter().flat_map(|c| c.1.clone()).collect();
+    let want = if md5_on {
+        Some(base64::engine::general_purpose::STANDARD.encode(md5::compute(&plain).0))
+    } else {
+        None
+    };
+    let got = bw.get_md5().map(|s| s.to_owned());
+    if !matches!(last, Ok(true)) || !bw.is_completed() || written != plain {
+        report(
+            "write",
+            "C03.blockwriter.write.decoded_bytes_are_the_plain_object",
+            inp,
+            format!("last={:?} completed={} written={} bytes equal={}", last.as_ref().ok(), bw.is_completed(), written.len(), written == plain),
+            format!("Ok(true) completed=true written={} bytes equal=true", plain.len()),
+        );
+        return true;
+    }
+    if got != want || (md5_on && bw.check_md5("not-a-digest")) {
+        report(
+            "write",
+            "C03.blockwriter.write.completion_sets_digest_of_exactly_the_written_bytes",
+            inp,
+            format!("md5={:?} accepts a wrong digest={}", got, bw.check_md5("not-a-digest")),
+            format!("md5={:?} accepts a wrong digest=false", want),
+        );
+        return true;
+    }
+    false
+}
+
 fn json_u64(s: &str, key: &str) -> Option<u64> {
     let k = format!("\"{}\":", key);
     let p = s.find(&k)? + k.len();
@@ -370,6 +435,22 @@ fn search() {
             let inp = Input { mode: 1, tl: 100, md5: 0, nblk: 1, blen, skew: acc, fail_at: u64::MAX, sbn0: 0 };
             if found < 6 && check(&inp) {
                 found += 1;
+            }
+        }
+    }
+    // real decoders: content encoding x plain length x block length x md5 x content length announced
+    for cenc in 0..3u64 {
+        for tl in [0u64, 1, 2, 17, 300, 5000] {
+            for blen in [1u64, 2, 7, 64, 100_000] {
+                for md5 in 0..2 {
+                    for cl in 0..2 {
+                        evals += 1;
+                        let inp = Input { mode: 2, tl, md5, nblk: cl, blen, skew: cenc, fail_at: u64::MAX, sbn0: 0 };
+                        if found < 6 && check(&inp) {
+                            found += 1;
+                        }
+                    }
+                }
             }
         }
     }
